@@ -18,6 +18,8 @@ LEVEL_NOTE = ('Trusted: clang AST; _mm_malloc/_mm_free/mmap/munmap behave as doc
 EXPLANATION = ('LIFE-TRY, LIFE-THROW, LIFE-ALLOCNULL, LIFE-ORDER, LIFE-VALUEINIT, LIFE-NULL, LIFE-PAIR over randomx.cpp, allocator.cpp, dataset.cpp/.hpp, virtual_machine.cpp, vm_*.hpp, jit_compiler_x86.cpp, virtual_memory.c. LIFE-CTOR.'
          ' RACE-GLOBALS.')
 
+EXPLANATION += ' RACE-GLOBALS-AST.'
+
 
 def run(ctx, R):
     F = astq.Facts(ctx, 'K0')
